@@ -17,7 +17,7 @@ RULE = ('attack graphs produced by short histories (generate from G_lang x G_mod
         'absent}. Oracle: typed comparison of the loaded graph with the original through attributes: per node '
         'id, name, type, TTC, defense status (float), existence status, viability, necessity (bool), MITRE '
         'info, tags (list of str), extras, edge sets by id; per attacker id, name, entry points, reached steps; '
-        'with the model given node.asset must be the model asset of the same name. Non-trivial: a node with '
+        'with the model given node.asset must be the model asset of the same name - also in a second save / load after an asset of the model was replaced by a new asset of the same name. Non-trivial: a node with '
         'tags, a False label or a pruned node, and an attacker with >=2 reached steps.')
 ASSUMPTIONS = ['compared through attributes, not through the all-strings dictionary form']
 
@@ -120,6 +120,28 @@ def check_case(case) -> Outcome:
                 break
     if got['attackers'] != orig['attackers']:
         out.add('attackers-differ', f'{got["attackers"]} != {orig["attackers"]}')
+    # ---- second round: replace an asset of the model by a new one with the same name, regenerate, reload ----
+    if with_model and case.get('second_round') and objs and not out.discrepancies:
+        try:
+            victim = objs[case['second_round'] % len(objs)]
+            vname, vtype = str(victim.name), str(victim.type)
+            model.remove_asset(victim)
+            fresh = getattr(model.lang_classes_factory.ns, vtype)(name=vname)
+            model.add_asset(fresh)
+            g2 = AttackGraph(lg, model)
+            g2.save_to_file(p)
+            loaded2 = AttackGraph.load_from_file(p, model=model)
+        except Exception as e:
+            out.add('second-round-raises', f'{type(e).__name__}: {e}')
+            return out
+        out.classes.append('second-round-after-model-edit')
+        for n in loaded2.nodes:
+            if n.asset is None or n.asset is not model.get_asset_by_name(str(n.asset.name)) \
+                    or not any(n.asset is a for a in model.assets):
+                out.add('second-round:node-bound-to-asset-not-in-model', n.full_name)
+                break
+        if set(snapshot(loaded2)['nodes']) != set(snapshot(g2)['nodes']):
+            out.add('second-round:node-ids-differ', '')
     return out
 
 
@@ -141,7 +163,8 @@ def cases(draw):
               'undos': draw(st.lists(st.tuples(small, small).map(list), max_size=2)),
               'analyse': draw(st.integers(0, 3)) > 0, 'prune': draw(st.booleans()),
               'node_extras': draw(st.lists(st.tuples(small, st.sampled_from(EXTRAS)).map(list), max_size=2)),
-              'fmt': draw(st.integers(0, 1)), 'with_model': draw(st.integers(0, 1))})
+              'fmt': draw(st.integers(0, 1)), 'with_model': draw(st.integers(0, 1)),
+              'second_round': draw(st.integers(0, 6))})
     return c
 
 
